@@ -218,6 +218,20 @@ func parseSnapshot(name string) (uint64, error) {
 }
 
 func (tst *tsTable) TakeFileSnapshot(dst string) (success bool, err error) {
+	// The core snapshot and the secondary-index snapshots are one publication
+	// (see snapshotPublicationMu). Pin the core snapshot and link the sidx parts
+	// under the read side of that lock: a flush or merge introduced in between
+	// would leave the copy with sidx parts its manifest does not list, and the
+	// sidx loader drops such parts when the copy is opened.
+	tst.snapshotPublicationMu.RLock()
+	publicationLocked := true
+	unlockPublication := func() {
+		if publicationLocked {
+			publicationLocked = false
+			tst.snapshotPublicationMu.RUnlock()
+		}
+	}
+	defer unlockPublication()
 	snapshot := tst.currentSnapshot()
 	if snapshot == nil {
 		return false, storage.ErrNoCurrentSnapshot
@@ -237,6 +251,7 @@ func (tst *tsTable) TakeFileSnapshot(dst string) (success bool, err error) {
 			return false, fmt.Errorf("failed to take file snapshot for index, %s: %w", k, sidxErr)
 		}
 	}
+	unlockPublication()
 
 	hasDiskParts := false
 	for _, pw := range snapshot.parts {
